@@ -27,6 +27,20 @@ type httpReq struct {
 	Why    string `json:"why,omitempty"`
 }
 
+// Bytes: the request body; "@repeat:<n>:<unit>" stands for <unit> repeated until n bytes (bodies of many
+// megabytes are kept out of scenario and replay files this way).
+func (r httpReq) Bytes() []byte {
+	if strings.HasPrefix(r.Body, "@repeat:") {
+		f := strings.SplitN(r.Body, ":", 3)
+		n := 0
+		fmt.Sscan(f[1], &n)
+		if len(f) == 3 && len(f[2]) > 0 && n > 0 {
+			return []byte(strings.Repeat(f[2], n/len(f[2])+1)[:n])
+		}
+	}
+	return []byte(r.Body)
+}
+
 type c09Case struct {
 	Mode string    `json:"mode"`
 	D    int       `json:"depth"`
